@@ -128,13 +128,14 @@ def run(ctx):
             modified.append(os.path.join(w, "p", "other.rego"))
         git_dirs = [repo_root] if repo_root else []
         if isinstance(arg, list):
-            arg_abs, nomodel = arg[0], True
+            arg_abs, nomodel = arg[0], False
         else:
             arg_abs, nomodel = os.path.normpath(os.path.join(cwd, arg)), False
         mcases.append({"id": k, "op": "c14.guard", "gitDirs": git_dirs, "argDir": arg_abs,
+                       "argDirs": arg if isinstance(arg, list) else [],
                        "walkStop": "" if (isinstance(arg, list) or os.path.isabs(arg)) else cwd, "_nomodel": nomodel,
                        "status": [tgt_abs] if dirty else [], "modified": modified, "deleted": deleted,
-                       "_sc": sc, "_rc": rc, "_out": out, "_before": before, "_after": after, "_target": target_rel})
+                       "_w": w, "_sc": sc, "_rc": rc, "_out": out, "_before": before, "_after": after, "_target": target_rel})
     model = ctx.model(mcases)
     for c in mcases:
         repo, state, kind, inv, v = c["_sc"]
@@ -152,10 +153,21 @@ def run(ctx):
         if dirty and tb != ta:
             ctx.fail("a file with uncommitted changes was modified, moved or deleted without --force", desc, None,
                      {"target": c["_target"], "before": tb, "after": ta})
+        # every file that changed must lie inside the git repository the scenario created (git can restore it)
+        if changed:
+            root_rel = None if c["gitDirs"] == [] else os.path.relpath(c["gitDirs"][0], c["_w"])
+            for f in sorted(set(c["_before"]) | set(c["_after"])):
+                # (a file that did not exist before is not work that could be lost)
+                if f in c["_before"] and c["_before"].get(f) != c["_after"].get(f):
+                    inside = root_rel is not None and (root_rel == "." or f == root_rel or f.startswith(root_rel + "/"))
+                    if not inside:
+                        ctx.fail("an existing file outside of every git repository was modified or removed without --force", desc, None,
+                                 {"file": f, "repository": root_rel})
+                        break
         if c["_rc"] != 0 and changed:
             ctx.fail("fix refused (non-zero exit) but the tree changed", desc, None, None)
         if c["_nomodel"]:
-            continue        # several arguments: only the property predicate above (the guard model takes one argument)
+            continue
         # --- correspondence with the guard model
         want_write = mo.get("outcome") == "write"
         nested_out_of_repo = False
